@@ -141,3 +141,49 @@ Proof.
     assert (Hc0 : rnd64 (IZR c0 / IZR nc) > B2R p02) by lra.
     apply Hiff0 in Hc0. congruence.
 Qed.
+
+(* ---- two-decimal proportions at whole-number boundaries, every count --------- *)
+From IBL.C16 Require Import SweepP.
+Local Open Scope R_scope.
+
+(* a decision known at two consecutive counts extends to all counts (monotone rounding) *)
+Lemma mean_form_threshold c0 nc (p : b64) :
+  is_finite p = true -> (1 <= nc < 2 ^ 53)%Z -> (0 <= c0)%Z -> (c0 + 1 <= nc)%Z ->
+  i_gt_pp (i_mean c0 nc) p = false -> i_gt_pp (i_mean (c0 + 1) nc) p = true ->
+  forall k, (0 <= k <= nc)%Z -> i_gt_pp (i_mean k nc) p = (c0 <? k)%Z.
+Proof.
+  intros Fp Hn H0 H1 Hlo Hhi k Hk.
+  destruct (pub_proportion_last_ulp k nc p Hk Hn Fp) as (_ & _ & Hiff).
+  destruct (c0 <? k)%Z eqn:E.
+  - apply Z.ltb_lt in E.
+    destruct (pub_proportion_last_ulp (c0 + 1) nc p ltac:(lia) Hn Fp) as (_ & _ & Hiff1).
+    apply Hiff1 in Hhi. apply Hiff.
+    apply Rge_gt_trans with (rnd64 (IZR (c0 + 1) / IZR nc)); [|exact Hhi].
+    apply Rle_ge. apply round_le; try typeclasses eauto. apply quot_le; lia.
+  - apply Z.ltb_ge in E.
+    destruct (pub_proportion_last_ulp c0 nc p ltac:(lia) Hn Fp) as (_ & _ & Hiff0).
+    destruct (i_gt_pp (i_mean k nc) p) eqn:G; [|reflexivity].
+    exfalso. assert (Hgt : rnd64 (IZR k / IZR nc) > B2R p) by (now apply Hiff).
+    assert (Hle : rnd64 (IZR k / IZR nc) <= rnd64 (IZR c0 / IZR nc)).
+    { apply round_le; try typeclasses eauto. apply quot_le; lia. }
+    assert (Hc0 : rnd64 (IZR c0 / IZR nc) > B2R p) by lra.
+    apply Hiff0 in Hc0. congruence.
+Qed.
+
+Lemma pub_two_decimal_boundary j nc k :
+  (1 <= j <= 99)%Z -> (1 <= nc <= 400)%Z -> ((j * nc) mod 100 = 0)%Z -> (0 <= k <= nc)%Z ->
+  mean_form k nc (pj j) = (j * nc <? 100 * k)%Z.
+Proof.
+  intros Hj Hn Hm Hk.
+  pose proof (Z.div_mod (j * nc) 100 ltac:(lia)) as Hdm. rewrite Hm in Hdm.
+  set (K := (j * nc / 100)%Z) in *.
+  assert (HK : (0 <= K /\ K + 1 <= nc)%Z) by nia.
+  destruct (boundary_point j nc K Hj Hn Hm ltac:(lia) ltac:(fold K; lia)) as [Fp H0].
+  destruct (boundary_point j nc (K + 1) Hj Hn Hm ltac:(lia) ltac:(fold K; lia)) as [_ H1].
+  replace (j * nc <? 100 * K)%Z with false in H0 by (symmetry; apply Z.ltb_ge; lia).
+  replace (j * nc <? 100 * (K + 1))%Z with true in H1 by (symmetry; apply Z.ltb_lt; lia).
+  unfold mean_form in *.
+  rewrite (mean_form_threshold K nc (pj j) Fp ltac:(lia) ltac:(lia) ltac:(lia) H0 H1 k Hk).
+  destruct (K <? k)%Z eqn:E1; destruct (j * nc <? 100 * k)%Z eqn:E2; try reflexivity;
+    [apply Z.ltb_lt in E1; apply Z.ltb_ge in E2|apply Z.ltb_ge in E1; apply Z.ltb_lt in E2]; lia.
+Qed.
